@@ -7,7 +7,7 @@ use std::collections::hash_map::DefaultHasher;
 use std::hash::{Hash, Hasher};
 use std::time::Instant;
 
-pub const RULE: &str = "case = (encoding, predicate): each predicate is recomputed from the behaviour of the same build over a finite, completely enumerated space - all byte strings of length <= 2 through the decoder (UTF-16 output length, ASCII bytes -> ASCII scalars) and every scalar value through the encoder (unmappable?, one byte per mappable character?, ASCII -> same single byte) - and compared with is_ascii_compatible(), is_single_byte(), can_encode_everything(); output_encoding() == new_encoder().encoding() == the encoding encode() reports, idempotent; == and Hash agree with instance identity on all 40 x 40 pairs; for_label(name()) is the same instance. Non-trivial = every (encoding, predicate, witness sweep) counts; evaluations counts the conversions executed. The space is finite and enumerated completely.";
+pub const RULE: &str = "case = (encoding, predicate): each predicate is recomputed from the behaviour of the same build over a finite, completely enumerated space - all byte strings of length <= 2 through the decoder (UTF-16 output length, ASCII bytes -> ASCII scalars) and every scalar value through the encoder (unmappable?, one byte per mappable character?, ASCII -> same single byte; ASCII bytes / characters next to every kind of non-ASCII sequence / character of the encoding in the same buffer; for can_encode_everything every scalar also from UTF-16 into a destination of exactly the queried size) - and compared with is_ascii_compatible(), is_single_byte(), can_encode_everything(); output_encoding() == new_encoder().encoding() == the encoding encode() reports, idempotent; == and Hash agree with instance identity on all 40 x 40 pairs; for_label(name()) is the same instance. Non-trivial = every (encoding, predicate, witness sweep) counts; evaluations counts the conversions executed. The space is finite and enumerated completely.";
 
 fn hash_of(e: &'static Encoding) -> u64 {
     let mut h = DefaultHasher::new();
@@ -85,7 +85,108 @@ fn check_encoding(enc: &'static Encoding, st: &mut Stats) -> Option<String> {
             EncoderResult::OutputFull => return Some("single scalar did not fit a 32-byte buffer".into()),
         }
     }
-    st.nontrivial_enum += 3;
+    // ---- ASCII in context: after / before a multi-byte (or high-byte) character, in the same buffer
+    let algo = crate::model_dec::algo_for(enc);
+    let mut ascii_ctx_witness: Option<String> = None;
+    if ascii_dec_ok && ascii_enc_ok {
+        let mut drv = crate::drive_dec::DecDriver::new();
+        let mut dec = |bytes: &[u8]| -> Option<Vec<u32>> {
+            let h = crate::drive_dec::DecHistory::simple(enc, crate::drive_dec::BomMode::None, crate::drive_dec::Sink::Utf16, true, bytes);
+            let o = drv.run(&h);
+            if o.completed && !o.had_errors {
+                o.scalars(crate::drive_dec::Sink::Utf16)
+            } else {
+                None
+            }
+        };
+        for a in crate::hist::atoms(algo) {
+            let base = match dec(&a) {
+                Some(b) if !b.is_empty() && a.iter().any(|x| *x >= 0x80) => b,
+                _ => continue, // only complete, error-free non-ASCII atoms
+            };
+            for b in 0..0x80u8 {
+                st.evals += 2;
+                let mut v = a.clone();
+                v.push(b);
+                let mut want = base.clone();
+                want.push(b as u32);
+                let mut w = vec![b];
+                w.extend_from_slice(&a);
+                let mut want2 = vec![b as u32];
+                want2.extend_from_slice(&base);
+                if dec(&v) != Some(want) || dec(&w) != Some(want2) {
+                    ascii_ctx_witness = Some(format!("byte {:02X} next to the sequence {} does not decode to U+{:04X}", b, fw::hex(&a), b));
+                    break;
+                }
+            }
+            if ascii_ctx_witness.is_some() {
+                break;
+            }
+        }
+        if ascii_ctx_witness.is_none() {
+            let mut edrv = crate::drive_enc::EncDriver::new();
+            let mut encode = |text: &[u32], src: crate::drive_enc::Src| -> Option<Vec<u8>> {
+                let h = crate::drive_enc::EncHistory::simple(enc, src, false, text);
+                let o = edrv.run(&h);
+                if o.completed && o.unmappables.is_empty() {
+                    Some(o.out)
+                } else {
+                    None
+                }
+            };
+            'outer: for x in crate::hist_enc::alphabet(enc) {
+                if x < 0x80 {
+                    continue;
+                }
+                for src in [crate::drive_enc::Src::Utf8, crate::drive_enc::Src::Utf16] {
+                    let base = match encode(&[x], src) {
+                        Some(b) => b,
+                        None => continue,
+                    };
+                    for a in 0..0x80u32 {
+                        st.evals += 2;
+                        let mut want = base.clone();
+                        want.push(a as u8);
+                        let mut want2 = vec![a as u8];
+                        want2.extend_from_slice(&base);
+                        if encode(&[x, a], src) != Some(want) || encode(&[a, x], src) != Some(want2) {
+                            ascii_ctx_witness = Some(format!("U+{:04X} next to U+{:04X} does not encode to the single byte {:02X}", a, x, a));
+                            break 'outer;
+                        }
+                    }
+                }
+            }
+        }
+    }
+    if let Some(w) = &ascii_ctx_witness {
+        if enc.is_ascii_compatible() {
+            return Some(format!("is_ascii_compatible() = true but {}", w));
+        }
+    }
+    // ---- can_encode_everything: every scalar must come out as itself also from UTF-16 with a
+    // destination of exactly the queried worst case (no silent substitution)
+    if enc.can_encode_everything() && any_unmappable.is_none() {
+        let oe = enc.output_encoding();
+        for cp in 0..0x110000u32 {
+            let c = match char::from_u32(cp) {
+                Some(c) => c,
+                None => continue,
+            };
+            let mut u = [0u16; 2];
+            let u = c.encode_utf16(&mut u);
+            let mut e = enc.new_encoder();
+            let need = e.max_buffer_length_from_utf16_without_replacement(u.len()).unwrap_or(16);
+            let mut d = vec![0u8; need];
+            let (r, rd, w) = e.encode_from_utf16_without_replacement(u, &mut d, true);
+            st.evals += 1;
+            let mut b8 = [0u8; 4];
+            let want = c.encode_utf8(&mut b8).as_bytes();
+            if r != EncoderResult::InputEmpty || rd != u.len() || (oe == UTF_8 && &d[..w] != want) {
+                return Some(format!("can_encode_everything() = true but U+{:04X} from UTF-16 into a {}-byte destination gives {:?} read {} bytes {}", cp, need, r, rd, fw::hex(&d[..w.min(need)])));
+            }
+        }
+    }
+    st.nontrivial_enum += 5;
     let behav_ascii = ascii_dec_ok && ascii_enc_ok;
     if enc.is_ascii_compatible() != behav_ascii {
         return Some(format!("is_ascii_compatible() = {} but behaviour says {} (ASCII bytes decode to themselves: {}, ASCII characters encode to themselves: {})", enc.is_ascii_compatible(), behav_ascii, ascii_dec_ok, ascii_enc_ok));
